@@ -192,7 +192,7 @@ def run(tier):
         for u in units:
             for size in (40000, 160000):
                 src = pre + u * (size // len(u)) + suf
-                tt.append({"op": "timing", "src": src.decode("latin-1"), "ver": "7.4" if len(tt) % 4 < 2 else "5.6", "limit_ms": 60000, "_k": (name, u, size)})
+                tt.append({"op": "timing", "src": src.decode("latin-1"), "ver": "7.4" if len(tt) % 4 < 2 else "5.6", "limit_ms": 25000, "_k": (name, u, size)})
     by = {}
     for t, r in zip(tt, wp.run([{k: v for k, v in t.items() if k != "_k"} for t in tt])):
         check.count()
